@@ -406,6 +406,29 @@ pub fn run_mem_family(ctx: &Ctx, fam: &MemFamily) -> Stats {
                             }
                         }
                     }
+                    // runs of three same-length sequences ending in a near-valid one
+                    let mut tk = 0usize;
+                    let ok = memgen::utf8_run_triples(|a1, a2, s| {
+                        tk += 1;
+                        if tk % LANES != lane {
+                            return true;
+                        }
+                        for (pre, tail) in [(0usize, 1usize), (13, 0)] {
+                            k += 1;
+                            let mut src8: Vec<u8> = (0..pre).map(|i| b'a' + i as u8).collect();
+                            src8.extend_from_slice(a1);
+                            src8.extend_from_slice(a2);
+                            src8.extend_from_slice(s);
+                            src8.extend((0..tail).map(|i| b'A' + i as u8));
+                            if !run(src8, vec![], "run-of-three-same-length-sequences-ending-near-valid", st, k) {
+                                return false;
+                            }
+                        }
+                        !(tk % 4096 == 0 && fw::should_stop())
+                    });
+                    if !ok {
+                        return;
+                    }
                     // two near-valid sequences back to back (what the first leaves behind in a reused decoder)
                     let step = if thorough { 1 } else { 7 };
                     for (ni, s) in near.iter().enumerate() {
